@@ -3,6 +3,8 @@ package main
 import (
 	"fmt"
 	"math/rand"
+	"os"
+	"path/filepath"
 	"strings"
 
 	"verif/lib"
@@ -161,6 +163,9 @@ func c05(tier string) {
 			ctx.FinishShard()
 		}
 	}
+	ctxDir, _ := os.MkdirTemp("", "c05ctx")
+	defer os.RemoveAll(ctxDir)
+	ctxFile := filepath.Join(ctxDir, "context.jsonld")
 	ctx.ForEach(nGraphs, func(i int) {
 		r := lib.CaseRand(ctx.Seed, 5, i)
 		g := c05Graph(r)
@@ -187,6 +192,14 @@ func c05(tier string) {
 		}
 		for v := 0; v < nVar; v++ {
 			text, applied := g.Variant(r)
+			if v%8 == 5 {
+				// the context lives in a file of its own, referenced (or imported) by the document
+				mode := pick(r, "reference", "import")
+				var ctxText string
+				text, ctxText = g.ContextByReference(ctxFile, mode)
+				_ = os.WriteFile(ctxFile, []byte(ctxText), 0o644)
+				applied = []string{"context-in-a-file(" + mode + ")", "prefix-compaction", "@graph-wrapper"}
+			}
 			flat, err := lib.FlattenCanon(text)
 			if err != nil || flat != canonFlat {
 				ctx.Count("variants_dropped_by_harness_selfcheck", 1)
@@ -230,6 +243,7 @@ func c05(tier string) {
 			}
 		}
 	})
+	os.RemoveAll(ctxDir)
 	ctx.FinishShard()
 }
 
